@@ -380,6 +380,17 @@ def worker(spec, out):
             return  # the predicate never fails within 4L
         if last[0] == "take" and last[1] > 0 and len(ref_pipe(pipe[:-1], base * 3)) < last[1]:
             return
+        if any(st[0] in ("partition-all", "partition-by") for st in pipe[:-1]):
+            # a partitioning stage hands its last partition down only when the input ends: on an infinite input the terminating stage
+            # must be reached by elements produced before that final flush, i.e. the stream in front of it must keep growing with the
+            # input and must hold more than the elements that decide
+            before8 = ref_pipe(pipe[:-1], base * 8)
+            if len(before8) <= len(before):
+                return
+            if last[0] == "take" and len(before) < last[1] + 1:
+                return
+            if last[0] == "take-while" and len(want) >= len(before) - 1:
+                return
         # the recorded bool~number conflation of distinct changes what reaches the terminating stage: when the defect model predicts
         # another result for this case, whatever goes wrong in it (other elements, unbounded consumption) is that finding
         known_key = None
@@ -423,8 +434,10 @@ def worker(spec, out):
                     seq8 = base * 8
                     p_min = next((p for p in range(len(seq8) + 1) if len(ref_pipe(pipe, seq8[:p])) == last[1]), None)
                     out.count("exact_consumption_checks")
-                    # (a lazy seq function may look one element ahead, e.g. to know whether a separator follows; reductions may not)
-                    if p_min is not None and pulls["inf"] > p_min + (1 if form == "lazy" else 0):
+                    # (lazy seq functions may look ahead - interpose needs to know whether an element follows, and one element of an
+                    # intermediate seq can stand for several inputs - so the lazy form is judged only by the pulls-independent-of-length
+                    # rule above and by C06's on-demand bound; reductions may not consume anything past the deciding element)
+                    if p_min is not None and form != "lazy" and pulls["inf"] > p_min:
                         out.violation(f"C07/early-termination/consumes-beyond-the-deciding-element/{form}", {"pipeline": f["xf_text"], "form": form, "base": base, "deciding_element_index": p_min, "elements_pulled": pulls["inf"]},
                                       {"kind": "term", "pipe": [list(st) for st in pipe], "base": list(base), "form": form})
         # completion exactly once for transduce with an instrumented reducing function
